@@ -6,8 +6,13 @@ import statsmodels.formula.api as smf
 import gen
 from common import rq, fx, unfx, enc_list, close
 
-REQUIRED = ['iptw_saturated', 'iptw_measures_saturated', 'gformula_saturated', 'gformula_generated', 'iptw_final_weight_generated', 'aipw_calc_generated', 'aipw_saturated']
+REQUIRED = ['iptw_saturated', 'iptw_measures_saturated', 'gformula_saturated', 'gformula_generated', 'iptw_final_weight_generated', 'aipw_calc_generated', 'aipw_saturated',
+            'bound_first_two', 'iptw_saturated_unreached_bound']
 RULE = ('random data sets with 1-3 categorical covariates (arity 2-4, <= 12 strata), positivity by construction, '
+        'round 4: per cell a truncation bound that is not reached, in a drawn accepted form (float / list / tuple, python or '
+        'numpy floats, a limit of exactly 0 or 1, more than two entries), and reporting / diagnostic methods (summary, '
+        'positivity, standardized_mean_differences, run_diagnostics, plot_*) called with drawn arguments between the model '
+        'specification and fit() and between fit() and reading the estimates; '
         'outcome binary / normal / count, with and without integer frequency weights; configuration cells enumerated '
         'per data set: IPTW stabilized x standardize (6), g-formula standardize (3), AIPTW, TMLE; every nuisance model '
         'saturated.  distinct = (data-set hash, estimator, options); non-trivial = the data set has >= 2 strata whose '
@@ -157,6 +162,23 @@ def iptw_cell(chk, drv, df, covs, ytype, wcol, cf, dsid, rec, stab, tgt, cols, m
     # K, nuisance layer: zEpid's fitted treatment probabilities are the cell proportions
     chk.k(np.allclose(ipt.df['__denom__'].values, exact_p, rtol=0, atol=1e-7),
           'IPTW fitted treatment probabilities = weighted cell proportions', case)
+    # K, bound layer: the model's use site of the bound (Bounds.estimatorBound / iptwRow: a float b = [b, 1-b], a
+    # collection = its entries 0 and 1) applied to the saturated probabilities gives zEpid's probabilities and weights
+    if drv is not None and case['bound']:
+        b = case['bound']
+        spec = ('float:' + fx(b['values'][0])) if b['form'] == 'float' else 'seq:' + ';'.join(fx(v) for v in b['values'])
+        wv = ipt.df[wcol].values.astype(float) if wcol else np.ones(len(ipt.df))
+        av = ipt.df['A'].values.astype(float)
+        nn = np.full(len(av), float((wv * av).sum() / wv.sum()) if stab else 1.0)
+        rep, _ = drv.ask('bw', kind='iptw', spec=spec, falsy=0, stab=int(stab), std=tgt,
+                         a=enc_list(av.astype(int), str), n=enc_list(nn, fx), d=enc_list(exact_prop(ipt.df, covs, wcol), fx))
+        ok = rep['status'] == 'ok'
+        if ok:
+            # 1e-7: IRLS convergence of zEpid's two logistic fits (the same tolerance as the nuisance layer below)
+            ok = np.allclose([unfx(t) for t in rep['d'].split(',')], ipt.df['__denom__'].values, rtol=0, atol=1e-7) and \
+                np.allclose([unfx(t) for t in rep['w'].split(',')], np.asarray(ipt.iptw, dtype=float), rtol=1e-6, atol=1e-7)
+        chk.k(ok, 'IPTW probabilities and weights under a bound = model of the bound (entries 0 and 1 of a collection) '
+                  'on the saturated fit', dict(case, model={k: v for k, v in rep.items() if k in ('status', 'err')}))
     # K, arithmetic layer: generated weight formula + Hajek means on the implementation's own fitted values
     if drv is not None:
         d = ipt.df['__denom__'].values
